@@ -652,3 +652,20 @@ pub fn run(tier_name: &str, seed: u64) -> i32 {
 pub fn replay_value(v: &Value) -> Vec<(String, String)> {
     replay_all(&v["case"])
 }
+
+
+/// Determinism self-test support: one line per (case, configuration) with the event-log hash and
+/// a hash of the observable result.
+pub fn digest(seed: u64, i: u64) -> Vec<String> {
+    let t = tier("quick");
+    let (case, _) = gen_case(seed, 9000 + i % 5, i, &t);
+    let robot = Arc::new(case.cell.build_robot());
+    case.cfgs
+        .iter()
+        .enumerate()
+        .map(|(j, cfg)| {
+            let out = execute(&robot, &case, cfg);
+            format!("C10 {i} {j} {} {:016x} {}", out.log.hex(), simctx::name_hash(&format!("{:?}", out.result)), out.schedule.len())
+        })
+        .collect()
+}
